@@ -68,3 +68,65 @@ def rules_of(enc):
         for r in prog._rules:
             out.append((prog.name, r))
     return out
+
+
+# ---------------------------------------------------------------------------
+# whole element trees (C06 printing layer): serialised for the model op `c06.print`
+# ---------------------------------------------------------------------------
+def elem_to_json(x):
+    from cnl2asp.ASP_elements.asp_atom import ASPAtom
+    from cnl2asp.ASP_elements.asp_aggregate import ASPAggregate
+    from cnl2asp.ASP_elements.asp_operation import ASPOperation, ASPAngleOperation, ASPTemporalOperation
+    from cnl2asp.ASP_elements.asp_temporal_formula import ASPTemporalFormula
+    if isinstance(x, ASPAtom):
+        return dict(atom_to_json(x), t='atom')
+    if isinstance(x, ASPAggregate):
+        return {'t': 'agg', 'sym': str(ASPAggregate.symbols[x.operation]), 'disc': [elem_to_json(d) for d in x.discriminant],
+                'body': [elem_to_json(b) for b in x.body.conjunction]}
+    if isinstance(x, ASPTemporalFormula):
+        return {'t': 'tel', 'neg': bool(x.negated), 'ops': [elem_to_json(o) for o in x.operations]}
+    if isinstance(x, ASPOperation):
+        kind = 'temporal' if isinstance(x, ASPTemporalOperation) else 'angle' if isinstance(x, ASPAngleOperation) else 'plain'
+        return {'t': 'op', 'k': kind, 'sym': str(x._operator_to_symbol(x.operator)), 'args': [elem_to_json(o) for o in x.operands]}
+    return {'t': 'val', 's': str(x)}
+
+
+def rule_to_json(r):
+    from cnl2asp.ASP_elements.asp_rule import ASPWeakConstraint
+    j = {'head': [{'elem': elem_to_json(h.choice_element), 'cond': [elem_to_json(c) for c in h.condition.conjunction]} for h in r.head],
+         'body': [elem_to_json(b) for b in r.body.conjunction]}
+    if r.cardinality:
+        lo, hi = r.cardinality[0], r.cardinality[1]
+        j['card'] = [str(lo) if lo else '', str(hi) if hi else '']
+    if isinstance(r, ASPWeakConstraint):
+        j['weak'] = {'weight': str(r.weight), 'level': str(r.level), 'disc': [elem_to_json(d) for d in r.discriminant]}
+    return j
+
+
+def encoding_to_json(enc):
+    return {'consts': [[str(n), str(v) if v else ''] for n, v in enc._constants],
+            'programs': [{'name': str(p.name) if p.name else '', 'rules': [rule_to_json(r) for r in p._rules]} for p in enc._programs]}
+
+
+def encoding_name_pairs(enc):
+    """ordered pairs of distinct names (atom names, origin names of the whole encoding) that NameComponent.__eq__ identifies;
+    None if its two variants (against a str / against a NameComponent) disagree"""
+    from cnl2asp.specification.name_component import NameComponent
+    names = set()
+    for a in walk_atoms(enc):
+        names.add(str(a.name))
+        for at in a.attributes:
+            names.update(origin_chain(at.origin))
+    names = sorted(n for n in names if n)
+    pairs = []
+    for x in names:
+        for y in names:
+            if x == y:
+                continue
+            e1 = NameComponent(x) == y
+            e2 = NameComponent(x) == NameComponent(y)
+            if e1 != e2:
+                return None
+            if e1:
+                pairs.append([x, y])
+    return pairs
